@@ -1120,6 +1120,7 @@ impl BytecodeVM {
                     delegated_iterator: None,
                     is_async: false,
                     throw_value: None,
+                    return_value: None,
                 };
 
                 let gen_obj = super::builtins::generator::create_bytecode_generator_object(
@@ -1159,6 +1160,7 @@ impl BytecodeVM {
                     delegated_iterator: None,
                     is_async: true, // Async generator
                     throw_value: None,
+                    return_value: None,
                 };
 
                 let gen_obj = super::builtins::generator::create_bytecode_generator_object(
@@ -2154,6 +2156,33 @@ impl BytecodeVM {
             self.exception_value = Some(guarded);
             false
         }
+    }
+
+    /// Inject a return completion into the VM for generator.return()
+    /// If the current position is inside a try statement with a finally block, the VM is set up
+    /// to run that block with the return pending (like a `return` statement at this position)
+    /// and true is returned; otherwise nothing changes and false is returned.
+    pub fn inject_return(&mut self, interp: &mut Interpreter, value: JsValue) -> bool {
+        let current_frame_depth = self.call_stack.len();
+        let Some(handler_idx) = self
+            .try_stack
+            .iter()
+            .rposition(|h| h.frame_depth == current_frame_depth && h.finally_ip != 0)
+        else {
+            return false;
+        };
+        let Some(handler) = self.try_stack.get(handler_idx).cloned() else {
+            return false;
+        };
+
+        self.pending_completion = Some(PendingCompletion::Return(Guarded::from_value(
+            value,
+            &interp.heap,
+        )));
+        self.leave_scopes(interp, handler.scope_depth);
+        self.try_stack.truncate(handler_idx);
+        self.ip = handler.finally_ip;
+        true
     }
 
     /// Execute a single opcode
